@@ -94,6 +94,78 @@ Definition env_de_json (bs : list N) : option (pag_version * sel) :=
       end
   end.
 
+(* ---------- the same for collections keyed by strings ----------
+   The framework never looks inside an item: keys are abstracted to their
+   rank in the collection (position in the sorted list of names, which the
+   judge checks to be strictly ascending in Rust's String order = str_ltb).
+   The selector the server puts in the token is
+       {'v':'v1','page_start':{'order':'ascending','last':'NAME'}}   (double quotes)
+   with NAME written raw (the judge requires names free of double quote,
+   backslash and control bytes, which serde_json would escape), so the model's
+   tokens are again comparable byte for byte with the server's. *)
+Definition ENV_MID_S : str := ENV_MID ++ [34].
+Definition ENV_SUFFIX_S : str := [34; 125; 125].
+
+Definition env_ser_names (names : list str) (s : sel) : option (list N) :=
+  let (o, k) := s in
+  match nth_error names (N.to_nat k) with
+  | Some nm =>
+      Some (ENV_PREFIX ++ (match o with Asc => W_ASC | Desc => W_DESC end)
+            ++ ENV_MID_S ++ nm ++ ENV_SUFFIX_S)
+  | None => None
+  end.
+
+Fixpoint index_of (nm : str) (names : list str) (i : N) : option N :=
+  match names with
+  | [] => None
+  | x :: r => if str_eqb nm x then Some i else index_of nm r (i + 1)
+  end.
+
+Definition strip_suffix (suf s : str) : option str :=
+  match strip_prefix (rev_append suf []) (rev_append s []) with
+  | Some r => Some (rev_append r [])
+  | None => None
+  end.
+
+Definition env_de_names (names : list str) (bs : list N) : option (pag_version * sel) :=
+  match strip_prefix ENV_PREFIX bs with
+  | None => None
+  | Some r1 =>
+      let after_order :=
+        match strip_prefix W_ASC r1 with
+        | Some r2 => Some (Asc, r2)
+        | None => match strip_prefix W_DESC r1 with
+                  | Some r2 => Some (Desc, r2)
+                  | None => None
+                  end
+        end in
+      match after_order with
+      | None => None
+      | Some (o, r2) =>
+          match strip_prefix ENV_MID_S r2 with
+          | None => None
+          | Some r3 =>
+              match strip_suffix ENV_SUFFIX_S r3 with
+              | None => None
+              | Some nm =>
+                  match index_of nm names 0 with
+                  | Some k => Some (V1, (o, k))
+                  | None => None
+                  end
+              end
+          end
+      end
+  end.
+
+Fixpoint names_sorted (names : list str) : bool :=
+  match names with
+  | [] => true
+  | x :: r => match r with [] => true | y :: _ => str_ltb x y && names_sorted r end
+  end.
+
+Definition name_plain (nm : str) : bool :=
+  forallb (fun c => (32 <=? c) && (c <? 256) && negb (c =? 34) && negb (c =? 92)) nm.
+
 (* ---------- observations ---------- *)
 (* Long key lists are written compactly when they are arithmetic progressions
    (the harness checks that the expansion is exactly the list it has):
@@ -126,7 +198,10 @@ Inductive scan_obs :=
 
 Inductive c15case :=
 | CScan (o : order) (coll : keys) (lim : option N) (obs : scan_obs)
-| CScanGrid (o : order) (coll : keys) (rows : list (option N * scan_obs)).
+| CScanGrid (o : order) (coll : keys) (rows : list (option N * scan_obs))
+(* a collection of names (sorted); items in the observation are ranks (a name
+   the collection does not hold is reported as rank |names|) *)
+| CScanNames (o : order) (names : list str) (lim : option N) (obs : scan_obs).
 
 (* ---------- the property statement, on the observation alone ---------- *)
 Definition page_spec (eff : N) (p : page_obs) : bool :=
@@ -146,8 +221,12 @@ Definition spec_scan (o : order) (coll : list N) (lim : option N) (obs : scan_ob
   end.
 
 (* ---------- the model's scan ---------- *)
-Definition model_scan (o : order) (coll : list N) (lim : option N) : scan_result :=
-  full_scan env_ser_json env_de_json PAGE_MAX PAGE_DEFAULT coll (length coll + 2) o lim.
+Definition model_scan_with (ser : sel -> option (list N))
+           (de : list N -> option (pag_version * sel))
+           (o : order) (coll : list N) (lim : option N) : scan_result :=
+  full_scan ser de PAGE_MAX PAGE_DEFAULT coll (length coll + 2) o lim.
+
+Definition model_scan := model_scan_with env_ser_json env_de_json.
 
 Definition page_agrees (m : page) (p : page_obs) : bool :=
   let '(its, has_tok, tok) := p in
@@ -167,13 +246,22 @@ Fixpoint pages_agree (ms : list page) (ps : list page_obs) : bool :=
 Definition wf_case (coll : list N) (lim : option N) : bool :=
   sortedb coll && match lim with Some l => (1 <=? l) && (l <=? U32_MAX) | None => true end.
 
-Definition judge_scan (o : order) (coll : list N) (lim : option N) (obs : scan_obs) : N :=
+Definition judge_scan_with (ser : sel -> option (list N))
+           (de : list N -> option (pag_version * sel))
+           (o : order) (coll : list N) (lim : option N) (obs : scan_obs) : N :=
   if negb (wf_case coll lim) then V_MALFORMED else
   if negb (spec_scan o coll lim obs) then V_VIOLATION else
-  match model_scan o coll lim, obs with
+  match model_scan_with ser de o coll lim, obs with
   | Done ms, SDone ps => if pages_agree ms (map expand_page ps) then V_AGREE else V_DIVERGE
   | _, _ => V_DIVERGE
   end.
+
+Definition judge_scan := judge_scan_with env_ser_json env_de_json.
+
+Definition judge_names (o : order) (names : list str) (lim : option N) (obs : scan_obs) : N :=
+  if negb (names_sorted names && forallb name_plain names) then V_MALFORMED else
+  let coll := map N.of_nat (seq 0 (length names)) in
+  judge_scan_with (env_ser_names names) (env_de_names names) o coll lim obs.
 
 Definition judge (c : c15case) : N :=
   match c with
@@ -181,4 +269,5 @@ Definition judge (c : c15case) : N :=
   | CScanGrid o coll rows =>
       let c := expand coll in
       worst_of (map (fun r : option N * scan_obs => judge_scan o c (fst r) (snd r)) rows)
+  | CScanNames o names lim obs => judge_names o names lim obs
   end.
